@@ -485,7 +485,7 @@ HARNESSES = [
                     'recovery tool terminates and emits only unchanged input transactions',
             symbolic='record selector (records with a back-pointer), target selector (all data records)', bounds='templates T4, T12',
             oracle='independent parser + read budget', code=['fsrecover.recover', 'FileStorageFormatter._loadBack_impl', 'TransactionRecordIterator'],
-            quick=dict(timeout=100, shards=shards(template=['T4', 'T12'])), thorough=dict(timeout=300, shards=shards(template=['T2', 'T4', 'T5', 'T12']))),
+            quick=dict(timeout=100, shards=shards(template=['T4', 'T12'])), thorough=dict(timeout=300, shards=shards(template=['T4', 'T5', 'T12']))),
     Harness('recover_clean', h_recover_clean,
             decides='fsrecover on an undamaged file reproduces the history (every revision query)',
             symbolic='template selector', bounds='templates T1-T6, T10', oracle='RevStore battery',
